@@ -135,6 +135,25 @@ def check_shape(shape, st: Stats, plan):
                             report("C18/vsl-infinite-vs-plain/second-step-same-arrays/numpy",
                                    f"{sv.short()}: second NumPy step from the same caller arrays, L{i} VSL {vs} with infinite limits vs "
                                    f"plain: {msg} at {vl}", dict(case, pair="A2"))
+                        # (iii) the same objects stepped twice: first with FINITE limits, then with the states only, on an engine
+                        # whose own variables are infinite (the neutral limit): exactly the plain link again
+                        if vs:
+                            import numpy as _np
+                            outs3 = []
+                            fin_ = dict(v)
+                            fin_[(f"L{i}", "v_ctrl")] = [LIMITS[0]] * len(vs)
+                            for sp_, first_, second_ in ((sv, fin_, v2), (plain, v, v)):
+                                b_ = _build(sp_)
+                                eng_ = env.numpy_engine(_np.inf)
+                                np_step(sp_, first_, P, built=b_, engine=eng_)
+                                outs3.append(np_step(sp_, second_, P, built=b_, engine=eng_,
+                                                     supply=frozenset(k_ for k_ in second_ if k_ != (f"L{i}", "v_ctrl")))[0])
+                            st.inc("executions", 4)
+                            msg = same_all(outs3[1], outs3[0])
+                            if msg:
+                                report("C18/vsl-infinite-vs-plain/engine-created-limits-after-finite-step/numpy",
+                                       f"{sv.short()}: L{i} VSL {vs} stepped with limit {LIMITS[0]}, then again with the states only on an "
+                                       f"engine whose own variables are infinite, vs plain link: {msg} at {vl}", dict(case, pair="A4"))
                         neg = {k_: ([-x for x in lst] if k_[1] in ("rho", "v") else list(lst)) for k_, lst in v.items()}
                         neg2 = dict(neg)
                         neg2[(f"L{i}", "v_ctrl")] = [INF] * len(vs)
